@@ -875,6 +875,37 @@ pub fn stress_shapes(thorough: bool) -> Vec<(String, Vec<u8>)> {
         b.extend(frame_bytes(&[pal, simple_layer(0, LayerKind::Image, 1), image_cel(0, wd, ht, px, Some(9))], 1));
         v.push((format!("bomb-cel-indexed-{}-index", name), b));
     }
+    // degenerate tilesets and tilemaps: zero tiles, zero tile sizes, zero-sized maps, in combination
+    for count in [0u32, 1] {
+        for (tw, th) in [(0u16, 0u16), (0, 1), (1, 0), (1, 1)] {
+            for (mw, mh) in [(0u16, 0u16), (0, 1), (1, 1)] {
+                if (count, tw, th, mw, mh) == (1, 1, 1, 1, 1) {
+                    continue;
+                }
+                let ts = Tileset { id: 0, flags: 2, count, tw, th, base_index: 1, name: String::new(), ext: (0, 0), pixels: vec![0u8; count as usize * tw as usize * th as usize * 4] };
+                let cel = Cel { layer: 0, x: 0, y: 0, opacity: 255, content: CelContent::Tilemap { w: mw, h: mh, bits: 32, masks: [0x1fffffff, 0x20000000, 0x40000000, 0x80000000], tiles: vec![0u32; mw as usize * mh as usize] }, user_data: None };
+                let mut b = header_bytes(1, 4, 4, 32);
+                b.extend(frame_bytes(&[chunk(tileset_chunk(&ts, 6, &mut None)), simple_layer(0, LayerKind::Tilemap { tileset: 0 }, 1), chunk(cel_chunk(&cel, Some(6), &mut None))], 1));
+                v.push((format!("degenerate-tileset-count{}-{}x{}-map-{}x{}", count, tw, th, mw, mh), b));
+            }
+        }
+    }
+    // a chunk (of every known type, and an unknown one) that declares 256 MiB, in a frame that declares as much, in a
+    // file that ends right after the chunk header
+    for ty in [0x0004u16, 0x0011, 0x2004, 0x2005, 0x2006, 0x2007, 0x2008, 0x2016, 0x2017, 0x2018, 0x2019, 0x2020, 0x2022, 0x2023, 0x2abc] {
+        let mut b = header_bytes(1, 4, 4, 32);
+        let csz = 0x1000_0000u32;
+        b.extend_from_slice(&(16 + csz).to_le_bytes());
+        b.extend_from_slice(&0xF1FAu16.to_le_bytes());
+        b.extend_from_slice(&1u16.to_le_bytes());
+        b.extend_from_slice(&100u16.to_le_bytes());
+        b.extend_from_slice(&[0, 0]);
+        b.extend_from_slice(&1u32.to_le_bytes());
+        b.extend_from_slice(&csz.to_le_bytes());
+        b.extend_from_slice(&ty.to_le_bytes());
+        b.extend_from_slice(&[0u8; 40]);
+        v.push((format!("chunk-and-frame-declare-256MiB-type-{:#06x}", ty), b));
+    }
     // deflate-bomb tilesets of 8 Mi one-pixel tiles, declared consistently (per-tile bookkeeping must not dwarf the
     // pixel data), alone and followed by user data chunks
     for (name, depth) in [("indexed", 8u16), ("gray", 16)] {
@@ -1226,7 +1257,14 @@ pub fn campaign(run: &mut Run, focus: Focus) {
                 continue;
             }
             let orig = read_field(bytes, f);
-            for v in boundary_values(f.len, orig) {
+            let mut vals = boundary_values(f.len, orig);
+            if f.kind == Kind::Enum && focus != Focus::C12 {
+                // enumerations and small selectors: every value up to 48, not only the boundaries
+                vals.extend((0..=48u64).filter(|v| *v != orig));
+                vals.sort();
+                vals.dedup();
+            }
+            for v in vals {
                 if focus == Focus::C12 && v < orig {
                     continue;
                 }
